@@ -139,6 +139,17 @@ CLAIMS = {
              "the technique (only two concrete cells touch a real file); UTF-8 encoding stubbed as "
              "injective, so 'same bytes' is decided as 'same text'",
         ref="§4 C14"),
+    "C19": dict(
+        text="ONLY the plain-Python logic around the compiled interpolators: z3 shows for all heights and "
+             "tolerances (2..6 samples) that the path filter of both map types keeps the first and last "
+             "sample, returns an in-order subsequence, drops only samples closer than the tolerance to "
+             "the previously kept height and keeps inner samples only when at least the tolerance "
+             "away; sample_path = filter(interpolated line, tolerance); raster lookups return 0 "
+             "outside [0,w)x[0,h) and scale x interpolator(row=y, column=x) inside; sparse lookups "
+             "scale x interpolator(x, y); setters validate.",
+        note="NOT decided: spline/Delaunay interpolation (exactness at samples, min/max bound, hull), "
+             "line rasterisation, image loading - compiled code, stubbed by recording callables",
+        ref="§4 C19"),
     "C07": dict(
         text="Inductive step of I7: after any of 96 call shapes from an arbitrary consistent state "
              "(symbolic feed, power, temperatures, E parameter, tool number) every state property "
@@ -160,7 +171,6 @@ NOT_APPLICABLE = {
            "symbolic engine here executes multi-threaded Python",
     "C18": "regex/strip/lower/float() parsing of symbolic strings does not confirm any path within "
            "budget (measured); z3 strings cannot reproduce re.findall leftmost-greedy semantics",
-    "C19": "substance is in scipy splines / LinearNDInterpolator / scikit-image / OpenCV (compiled code)",
 }
 
 
